@@ -454,6 +454,11 @@ def reference(node, env, modes=(False, True), dps=50, kappa_max=1e4):
                         if _finite(vq) and vq != 0 and not (lim_lo <= abs(vq) <= lim_hi):
                             bad = True
                             break
+                    # a Rational is emitted as <numerator>f/<denominator>f: both are intermediate float values
+                    for nd in nodes.values():
+                        if nd and nd[0] == "Rational" and (abs(int(nd[1])) > lim_hi or abs(int(nd[2])) > lim_hi):
+                            bad = True
+                            break
                     if bad:
                         out[m] = Unjudgeable("overflow:float_range")
                         continue
